@@ -27,6 +27,24 @@ def sartOut (r : Except Err (List Float × List Float)) : String :=
   | .error e => errS e
   | .ok (x, c) => s!"ok {c.length} {fFs x} {fFs c}"
 
+
+def pRep : String → Rep
+  | "f32" => .f32 | "i32" => .i32 | "i64" => .i64 | "bool" => .bool | "list" => .list | "intlist" => .list
+  | "tuple" => .tuple | "fortran" => .fortran | "strided" => .strided | "readonly" => .readonly | "col" => .col
+  | _ => .f64
+
+def pGRep : String → GRep
+  | "none" => .none | "pyfloat" => .pyfloat | "pyint" => .pyint | "pybool" => .pybool | "npf64" => .npf64
+  | "npf32" => .npf32 | "npi64" => .npi64 | "zerod" => .zerod
+  | s => .arr (pRep s)
+
+def pARep : String → ARep
+  | "pyint" => .pyint | "npf64" => .npf64 | "npf32" => .npf32 | "zerod" => .zerod
+  | _ => .pyfloat
+
+def statusS : Status → String
+  | .ok => "ok" | .valueError => "ValueError" | .typeError => "TypeError" | .attributeError => "AttributeError"
+
 def step (ts : List String) : String :=
   match ts with
   -- sart n m maxit relax tol <guess> W(m*n) b(m)
@@ -89,6 +107,11 @@ def step (ts : List String) : String :=
       let (Lf, r) := takeF (n * n) r
       let (x, _) := takeF n r
       fF (objective (rowsOf n m Wf) (rowsOf n n Lf) (pF a) b x)
+  -- acceptance of argument representations
+  | ["acc", "sart", rW, rb, rg] => statusS (sartAccept (pRep rW) (pRep rb) (pGRep rg))
+  | ["acc", "lsq", m, rW, ra, rL, rb] =>
+      statusS (lsqAccept (pN m) (pRep rW) (pARep ra) (if rL == "-" then none else some (pRep rL)) (pRep rb))
+  | ["acc", "svd", rW, rb] => statusS (svdAccept (pRep rW) (pRep rb))
   | _ => "bad-op"
 
 def main : IO UInt32 := do
